@@ -983,15 +983,15 @@ func (s *AggTagSetCursor) NextWithMultipleSeries() (*record.Record, comm.SeriesI
 	for {
 		if !s.baseCursorInfo.init {
 			s.baseAggCursorInfo.recordBuf, s.baseAggCursorInfo.fileInfo, err = s.baseCursorInfo.keyCursor.NextAggData()
+			if err != nil {
+				return nil, nil, err
+			}
 			if s.baseAggCursorInfo.recordBuf == nil {
 				break
 			}
 
 			s.baseCursorInfo.currSeriesInfo = s.baseAggCursorInfo.fileInfo.SeriesInfo
 			s.assignRecord()
-			if err != nil {
-				return nil, nil, err
-			}
 			s.TimeWindowsInit()
 			if e := s.RecordInit(); e != nil {
 				return nil, nil, e
@@ -1085,14 +1085,14 @@ func (s *AggTagSetCursor) RecordInit() error {
 			s.UpdateRec(i, int(index))
 		}
 		s.baseAggCursorInfo.recordBuf, s.baseAggCursorInfo.fileInfo, err = s.baseCursorInfo.keyCursor.NextAggData()
+		if err != nil {
+			return err
+		}
 		if s.baseAggCursorInfo.recordBuf == nil {
 			break
 		}
 
 		s.baseCursorInfo.currSeriesInfo = s.baseAggCursorInfo.fileInfo.SeriesInfo
-		if err != nil {
-			return err
-		}
 
 		s.getRecord()
 	}
@@ -1219,13 +1219,13 @@ func (s *PreAggTagSetCursor) Next() (*record.Record, comm.SeriesInfoIntf, error)
 	var err error
 	s.baseAggCursorInfo.recordBuf, s.baseAggCursorInfo.fileInfo, err = s.baseCursorInfo.keyCursor.NextAggData()
 	s.ops = s.baseCursorInfo.ctx.decs.GetOps()
+	if err != nil {
+		return nil, nil, err
+	}
 	if s.baseAggCursorInfo.recordBuf == nil {
 		return nil, nil, nil
 	}
 	s.baseCursorInfo.currSeriesInfo = s.baseAggCursorInfo.fileInfo.SeriesInfo
-	if err != nil {
-		return nil, nil, err
-	}
 	rec := s.baseAggCursorInfo.recordBuf
 	s.baseCursorInfo.RecordResult = rec.Copy(true, nil, rec.Schema)
 	if e := s.RecordInitPreAgg(); e != nil {
@@ -1244,14 +1244,14 @@ func (s *PreAggTagSetCursor) RecordInitPreAgg() error {
 	var err error
 	for {
 		s.baseAggCursorInfo.recordBuf, s.baseAggCursorInfo.fileInfo, err = s.baseCursorInfo.keyCursor.NextAggData()
+		if err != nil {
+			return err
+		}
 		if s.baseAggCursorInfo.recordBuf == nil {
 			break
 		}
 		if immutable.AggregateData(s.baseCursorInfo.RecordResult, s.baseAggCursorInfo.recordBuf, s.ops) && len(s.ops) == 1 {
 			s.baseCursorInfo.currSeriesInfo = s.baseAggCursorInfo.fileInfo.SeriesInfo
-		}
-		if err != nil {
-			return err
 		}
 	}
 	return nil
